@@ -434,7 +434,6 @@ func c14PathCase(t *core.T) {
 	}
 }
 
-
 // c14SiblingCase uses ONE parent object the way the wallet does (nextAddresses, the gap-limit scan, the
 // unlock path): children are derived from it one after another, some are zeroed as soon as they have
 // been used, others are kept; then every kept child, the parent itself and a second derivation of
